@@ -109,25 +109,25 @@ theorem quic_identity (dstID proven : KeyId) (allow : KeyId → Bool) :
 
 /-! ## p2pkeswarm -/
 
-theorem ke_src_is_accepted_key (key : KeyId) (whitelist : KeyId → Bool) (how : Created) (ra ka : Nat) (lt : IdLt)
+theorem ke_src_is_accepted_key (key : KeyId) (whitelist : KeyId → Bool) (how : Created) (ra ka ht : Nat) (lt : IdLt)
     (ops : List COp) (w : Wire) (eph now : Nat) (p : Bytes) :
-    let c := (Chan.fresh key (acceptOf whitelist how) ra ka).run lt ops
+    let c := (Chan.fresh key (acceptOf whitelist how) ra ka ht).run lt ops
     let c' := (c.step lt (.deliver w eph now)).1
     (c.step lt (.deliver w eph now)).2.app = some p →
     ∃ k, keSrcID c' = some k ∧ acceptOf whitelist how k = true ∧
       ∃ e, (c'.cur = some e ∨ c'.prev = some e) ∧ e.sess.rKey = some k := by
   intro c c' happ
   obtain ⟨k, hk, hacc, e, he, hr, _⟩ :=
-    P2PKE.never_delivers_from_rejected key (acceptOf whitelist how) ra ka lt ops w eph now p happ
+    P2PKE.never_delivers_from_rejected key (acceptOf whitelist how) ra ka ht lt ops w eph now p happ
   exact ⟨k, hk, hacc, e, he, hr⟩
 
 theorem run_snoc (c : Chan) (lt : IdLt) (ops : List COp) (op : COp) :
     c.run lt (ops ++ [op]) = ((c.run lt ops).step lt op).1 := by
   simp [Chan.run, List.foldl_append]
 
-theorem ke_wrong_identity_never_receives (key : KeyId) (whitelist : KeyId → Bool) (how : Created) (ra ka : Nat)
+theorem ke_wrong_identity_never_receives (key : KeyId) (whitelist : KeyId → Bool) (how : Created) (ra ka ht : Nat)
     (lt : IdLt) (ops : List COp) (dstID : KeyId) (p : Bytes) (now : Nat) (w : Wire) :
-    let c := (Chan.fresh key (acceptOf whitelist how) ra ka).run lt ops
+    let c := (Chan.fresh key (acceptOf whitelist how) ra ka ht).run lt ops
     keMayUse dstID c = true → (c.step lt (.send p now)).2.sent = [w] →
     ∃ e, (c.expire now).cur = some e ∧ e.sess.rKey = some dstID := by
   intro c hmay hsent
@@ -140,24 +140,24 @@ theorem ke_wrong_identity_never_receives (key : KeyId) (whitelist : KeyId → Bo
       rw [hk, hmay.2]
     · cases hmay
   obtain ⟨e, k, hcur, _, _, _⟩ :=
-    P2PKE.never_encrypts_to_rejected key (acceptOf whitelist how) ra ka lt ops p now w hsent
+    P2PKE.never_encrypts_to_rejected key (acceptOf whitelist how) ra ka ht lt ops p now w hsent
   -- key continuity across expiry
   have hrk' : (c.step lt (.expire now)).1.remoteKey = some dstID :=
-    P2PKE.key_continuity key (acceptOf whitelist how) ra ka lt ops (.expire now) dstID hrk
+    P2PKE.key_continuity key (acceptOf whitelist how) ra ka ht lt ops (.expire now) dstID hrk
   have hstep : (c.step lt (.expire now)).1 = c.expire now := rfl
   rw [hstep] at hrk'
   -- the invariant in the state after expiry
-  have hinv := P2PKE.never_ready_with_rejected key (acceptOf whitelist how) ra ka lt (ops ++ [.expire now])
+  have hinv := P2PKE.never_ready_with_rejected key (acceptOf whitelist how) ra ka ht lt (ops ++ [.expire now])
   simp only [run_snoc] at hinv
   have hinv2 := hinv.2.1 e (by rw [hstep]; exact hcur)
   refine ⟨e, hcur, ?_⟩
   rw [hinv2.2.1, hstep, hrk']
 
-theorem whitelist_respected (key : KeyId) (whitelist : KeyId → Bool) (ra ka : Nat) (lt : IdLt) (ops : List COp)
+theorem whitelist_respected (key : KeyId) (whitelist : KeyId → Bool) (ra ka ht : Nat) (lt : IdLt) (ops : List COp)
     (k : KeyId) (hk : whitelist k = false) :
-    ((Chan.fresh key (acceptOf whitelist .inbound) ra ka).run lt ops).remoteKey ≠ some k := by
+    ((Chan.fresh key (acceptOf whitelist .inbound) ra ka ht).run lt ops).remoteKey ≠ some k := by
   intro hrk
-  have h := (P2PKE.never_ready_with_rejected key (acceptOf whitelist .inbound) ra ka lt ops).1 k hrk
+  have h := (P2PKE.never_ready_with_rejected key (acceptOf whitelist .inbound) ra ka ht lt ops).1 k hrk
   simp only [acceptOf] at h
   rw [hk] at h
   cases h
